@@ -54,6 +54,22 @@ pub fn c03_import(data: &[u8]) -> Result<(), String> {
 	if l.take().iter().any(|x| x.contains("subject") || x.contains("issuer")) {
 		return Ok(());
 	}
+	// the same question asked of the two names alone, so that lints raised below the level that
+	// knows which field it is reading (identifier and length octets) are seen as well
+	let name_lints = Lints::new();
+	for raw in [&orig.subject.raw, &orig.issuer.raw] {
+		match crate::der::read_tlv(raw, &name_lints) {
+			Ok((t, rest)) if rest.is_empty() => {
+				if x509::parse_name(&t, &name_lints, "name").is_err() {
+					return Ok(());
+				}
+			},
+			_ => return Ok(()),
+		}
+	}
+	if !name_lints.is_empty() {
+		return Ok(());
+	}
 	let key = keys::make_key(&KeySpec { alg: KeyAlg::Ed25519, idx: 0, rsa_hash: RsaHash::Sha256, remote: !cfg!(feature = "crypto") })?;
 	let issuer = match crate::runner::no_panic(|| params.self_signed(&key))? {
 		Ok(c) => c,
